@@ -91,7 +91,8 @@ fn main() {
         return;
     }
     let name = &args[1];
-    let bytes = unhex(args.get(2).map(|s| s.as_str()).unwrap_or(""));
+    let arg = args.get(2).map(|s| s.as_str()).unwrap_or("");
+    let bytes = if let Some(path) = arg.strip_prefix('@') { unhex(std::fs::read_to_string(path).unwrap().trim()) } else { unhex(arg) };
     let f = table.iter().find(|(n, _)| *n == name.as_str()).expect("unknown check").1;
     let h0 = llsym_heap_total();
     let r = f(bytes.as_ptr(), bytes.len());
